@@ -102,8 +102,9 @@ Definition run_c13 (code : Z) (ps : list Z) (vs : list (list Z)) : option (list 
 (* Direct oracle: the property statement on the implementation's outputs.
      13000+op: every output word equals the plain word operation;
      13100+op: the harness found no mismatch among its n pairs;
-     13200+op: the tables dumped from the compiled crate, decoded, pass the proved checker and the
-               well-formedness test (so, by check_sound, the compiled tables are correct for all inputs). *)
+     13200+op: the tables dumped from the compiled crate, decoded: 0 when the (exact, decidable) well-formedness part
+               of the property fails; 1 when they also pass the proved checker (so, by check_sound, the compiled
+               tables are correct for all inputs); 2 when only the (sound but incomplete) checker rejects them. *)
 Definition forall2b {X Y} (f : X -> Y -> bool) (l1 : list X) (l2 : list Y) : bool :=
   Nat.eqb (length l1) (length l2) && forallb (fun q => f (fst q) (snd q)) (combine l1 l2).
 Definition ob (b : bool) : Z := if b then 1 else 0.
@@ -120,8 +121,9 @@ Definition oracle_c13 (code : Z) (ps : list Z) (vs outs : list (list Z)) : Z :=
       match outs with
       | [nin; nout] :: tabs =>
         let tab := map (dec_circuit (Z.to_nat nin)) tabs in
-        ob (check_family (f_aut f) (f_hint f) tab &&
-            family_wf (Z.to_nat nin) (Z.to_nat nout) (f_bits f) tab)
+        if negb (family_wf (Z.to_nat nin) (Z.to_nat nout) (f_bits f) tab) then 0
+        else if check_family (f_aut f) (f_hint f) tab then 1
+        else 2      (* the checker is sound, not complete: a rejected table is not by itself a failing input *)
       | _ => 0
       end
     else 2
